@@ -18,6 +18,8 @@ def run(ck):
         ck.guard("C10-R1", r1_v1_trailer, ck, F)
         ck.guard("C10-R2", r2_common_prefix, ck, F)
         ck.guard("C10-R3", r3_version_blind, ck, F)
+        from .c13 import reader_new_is_trailer_read
+        ck.guard("C10-R3", reader_new_is_trailer_read, ck, F, "C10-R3")
     if ck.tier == "thorough":
         ck.guard("C10-R1", r1_xver, ck)
     ck.trusted += ["rustc MIR construction", "byteorder"]
